@@ -13,7 +13,7 @@ from ..sims import H, canon
 from ._enga import POLICY_CYCLE, order_hash, scn_hash
 
 PROP = "C09"
-HEADLINE = ["canonical_cases", "canonical_settling", "canonical_exceeding", "never_settle_cases",
+HEADLINE = ["spiral_cases", "canonical_cases", "canonical_settling", "canonical_exceeding", "never_settle_cases",
             "random_cases", "random_interrupted", "random_completed_with_substeps", "max_substeps_seen"]
 
 PLACEMENTS = {
@@ -171,6 +171,39 @@ def run_slice(job: dict) -> dict:
                                                        "placement": pname, "three_members": three, "observer": obs,
                                                        "outcome": tr["outcome"]["kind"], "error": tr["outcome"].get("msg", "")[:90],
                                                        "A_steps_per_time": dict(per_time)})
+    # ---- class (v): no same-time loop at all, but a loop closed over *time* by a time-shifted connection
+    # whose other hop is weak: every time step has exactly one step per member, for more time steps than
+    # max_loop_iterations ("loops that settle within the bound are never interrupted, and simulation time
+    # then advances normally") ------------------------------------------------------------------------------
+    for M in [m_ for m_ in job["Ms"] if m_ >= 2]:      # (the weak hop itself gives sub-time 1: needs M >= 2)
+        for pname, (pa, pb) in PLACEMENTS.items():
+            for shift in (1, 2):
+                for v in range(2):
+                    k += 1
+                    if k % W != w:
+                        continue
+                    n_t = M * shift + 3 * shift
+                    scn = canonical(pa, pb, 1, M, n_t, None, bool(v), bool(k % 2))
+                    # replace the closing hop's partner: A -> B weak, B -> A time-shifted
+                    scn["conns"] = [{"src": "A", "se": "e0", "sa": "o", "dst": "B", "de": "e0", "da": "i", "weak": True},
+                                    {"src": "B", "se": "e0", "sa": "o", "dst": "A", "de": "e0", "da": "i", "shift": shift}]
+                    for s_ in scn["sims"]:
+                        s_["beh"] = {"seed": 1, "p_self": 0.0, "p_out": 1.0, "L": {"*": 5}}
+                    sched = dict(POLICY_CYCLE[k % len(POLICY_CYCLE)])
+                    sched["seed"] = H(seed, k) % (1 << 31)
+                    tr = run_case(scn, sched)
+                    a = Analysis(scn, tr)
+                    res["evaluations"] += 1
+                    C["spiral_cases"] += 1
+                    per = Counter((st["time"]) for st in a.steps["A"])
+                    if tr["outcome"]["kind"] != "ok":
+                        viol({"kind": "settling_loop_interrupted", "cls": "spiral", "M": M, "shift": shift,
+                              "placement": pname, "outcome": tr["outcome"], "note": "one sub-step per time step only"},
+                             scn, sched, tr)
+                    elif any(n != 1 for n in per.values()) or sorted(per) != list(range(0, n_t, shift)):
+                        viol({"kind": "wrong_number_of_substeps", "cls": "spiral", "M": M, "A_steps_per_time": dict(per)},
+                             scn, sched, tr)
+                    res["hashes"].add(H("spiral", M, pname, shift, v, order_hash(tr["events"])) % (1 << 52))
     # ---- class (iv): generated multi-weak / nested loops with small bounds -----------------
     for i in range(w, job["n_cases"], W):
         prof = dict(PROFILES["sibling" if i % 2 else "core"])
@@ -239,7 +272,8 @@ def evidence(m, tier, seed):
                 "siblings inside a group, depth 3), with/without an observer in the root / a sibling group / the "
                 "same group, cache/lazy on/off, rotating schedule policies: N<=M => normal return with exactly N "
                 "sub-steps per time and time advancing; N>M => SimulationError naming a member, exactly M sub-steps "
-                "executed; generated multi-weak/nested scenarios with M in 1..4: envelope only; "
+                "executed; loops closed over time by a time-shifted hop (one sub-step per time step, more time steps "
+                "than M) must never be interrupted; generated multi-weak/nested scenarios with M in 1..4: envelope only; "
                 "distinct_nontrivial = distinct (case parameters, global event order)",
         "exhaustive": False,
         "obligations": m["counters"].get("canonical_cases", 0) + m["counters"].get("random_cases", 0),
